@@ -1,4 +1,5 @@
 import Blf.Queue
+import Blf.Queue32
 /-!
 # C16 — The object queue is a bounded FIFO with exact end-of-stream and abort
 
@@ -6,6 +7,11 @@ import Blf.Queue
 > queue is at its configured capacity; end-of-stream (null result, eof set) is reported only when the
 > queue is empty and either the declared size has been consumed or abort() was called - never while
 > objects remain - and abort() releases every waiter.
+
+The counters `m_tellg` / `m_tellp` are `uint32_t` in the code: `C16_counters32_refine` proves that the machine with wrapping
+counters (`Blf.Queue.run32`) *is* the machine below for every history that writes fewer than 2^32 objects, and
+`C16_fifo_wrap` / `C16_never_null_while_objects_remain_wrap` / `C16_abort_releases_wrap` prove the counter-independent parts
+for every history of the wrapping machine, without that bound.
 
 Sequential half: theorems by induction over arbitrary operation lists (no length bound, any capacity).
 The concurrent half (one producer, one consumer, a controller) is an instance of the pipeline model (C06/C07).
@@ -31,5 +37,30 @@ theorem C16_abort_releases (s : State) (ops : List Op) (op : Op) :
 
 theorem C16_positions (ops : List Op) : (run {} ops).1.tellg + (run {} ops).1.queue.length = (run {} ops).1.tellp :=
   inv_run {} ops (by simp [Blf.Queue.Inv])
+
+/-- the model with unbounded counters is exact for the `uint32_t` counters of the code: every history that starts in a
+    state satisfying the position invariant and keeps the put counter below 2^32 gives the same state and the same results -/
+theorem C16_counters32_refine (s : State) (ops : List Op) (hi : Blf.Queue.Inv s) (hb : s.tellp + ops.length < W) :
+    run32 s ops = run s ops := run32_eq_run s ops hi hb
+
+/-- FIFO / exactly once for every history of the machine with wrapping counters (no bound on the number of objects) -/
+theorem C16_fifo_wrap (s : State) (ops : List Op) :
+    delivered (run32 s ops).2 ++ (run32 s ops).1.queue = s.queue ++ written32 s ops := fifo32 s ops
+
+/-- wrapping counters: a read returns null exactly on the empty queue (never while objects remain), then eof is set and
+    good cleared, and the read was admitted because the size test held or abort was called -/
+theorem C16_never_null_while_objects_remain_wrap (s : State) :
+    ((step32 s .read).2 = some none ↔ s.queue = []) ∧
+    ((step32 s .read).2 = some none → (step32 s .read).1.eof = true ∧ (step32 s .read).1.good = false) ∧
+    (guard32 s .read = true → s.queue = [] → (s.tellg ≥ s.fileSize ∨ s.abort = true)) :=
+  ⟨(eos32_nonempty s).1, (eos32_nonempty s).2, eos32_cause s⟩
+
+theorem C16_abort_releases_wrap (s : State) (ops : List Op) (op : Op) :
+    guard32 (run32 (step32 s .abort).1 ops).1 op = true := abort_releases32 s ops op
+
+/-- wrapping counters: `(tellg + |queue|) mod 2^32 = tellp` after every history -/
+theorem C16_positions_wrap (ops : List Op) :
+    ((run32 {} ops).1.tellg + (run32 {} ops).1.queue.length) % W = (run32 {} ops).1.tellp % W :=
+  inv32_run {} ops (by simp [Inv32])
 
 end Blf.Props
